@@ -1674,8 +1674,48 @@ M("c03-strategy-called-unprotected", "C03", "R1.record-before-outcome", "operati
 M("c15-bytes-decoded-through-b64decode", "C15", "R12.leaf-decoder-no-deeper-than-leaf-encoder", "serdes.py",
   "        return binascii.a2b_base64(value.encode(\"utf-8\"))", "        return base64.b64decode(value.encode(\"utf-8\"))", desc="fix 2d5fcf1 reverted")
 M("c09-suspension-raised-without-second-look", "C09", "R5.decided-policy-overrules-a-recorded-suspension", "concurrency/executor.py",
-  "                if self._suspend_exception and not self.counters.should_complete():", "                if self._suspend_exception:")
+  "                if self._suspend_exception and not decided:", "                if self._suspend_exception:")
 M("c19-error-built-under-the-mutex", "C19", "R1.no-user-code-under-the-mutex", "threading.py",
   "            broken_by = self._exception if self._is_broken else None\n", "            broken_by = self._exception if self._is_broken else None\n            if self._is_broken:\n                raise OrderedLockError(\"broken\", self._exception)\n")
 M("c07-replayed-wait-counts-from-now", "C07", "R1.replayed-wait-parks-until-its-recorded-end", "operation/wait.py",
-  "            suspend_with_optional_resume_timestamp(msg, max(scheduled_end, earliest))\n", "            pass\n", desc="the repair of h3_C07 #1 reverted")
+  "            suspend_with_optional_resume_timestamp(msg, resume_at)\n", "            pass\n", desc="the repair of h3_C07 #1 reverted")
+
+# ---- rounds g2 / r7 -------------------------------------------------------------------------------------------------
+M("c03-mailbox-signal-before-error", "C03", "R2.completion-event-payload-stored-before-the-signal", "threading.py",
+  "        if self._error is None:\n            self._error = error\n        self._event.set()\n",
+  "        if self._event.is_set():\n            return\n        self._event.set()\n        self._error = error\n", desc="r7_C03 / r7_C06")
+M("c06-mailbox-signal-before-error", "C06", "R2.completion-event-payload-stored-before-the-signal", "threading.py",
+  "        if self._error is None:\n            self._error = error\n        self._event.set()\n",
+  "        self._event.set()\n        if self._error is None:\n            self._error = error\n")
+M("c06-mailbox-error-read-before-wait", "C06", "R2.completion-event-slot-read-after-the-wait", "threading.py",
+  "        result = self._event.wait(timeout)\n        if self._error is not None:\n            raise self._error\n        return result",
+  "        if self._error is not None:\n            raise self._error\n        return self._event.wait(timeout)")
+M("c06-benign-mailbox-local-name", "C06", "", "threading.py",
+  "        if self._error is None:\n            self._error = error\n        self._event.set()\n",
+  "        first = self._error is None\n        if first:\n            self._error = error\n        self._event.set()\n", expect="silent")
+M("c07-overdue-timer-parks-untimed", "C07", "R1.own-timer-never-parks-without-a-time", "suspend.py",
+  "        raise TimedSuspendExecution.from_datetime(\n            msg, datetime.datetime.now(tz=datetime.UTC)\n        )\n", "        raise SuspendExecution(msg)\n", desc="r7_C07")
+M("c09-percentage-of-finished-items", "C09", "R3.same-derived-quantity", "concurrency/models.py",
+  "                    failure_percentage = (failure_count / total_count) * 100", "                    failure_percentage = (failure_count / completed_count) * 100", desc="r7_C09")
+M("c09-classifier-total-is-finished-count", "C09", "R3.classifier-counters-bound-to-their-statuses", "concurrency/models.py",
+  "            total_count=total_count,\n", "            total_count=completed_count,\n")
+M("c09-benign-second-look-inline", "C09", "", "concurrency/executor.py",
+  "                with self._decision_lock:\n                    decided = self.counters.should_complete()\n                if self._suspend_exception and not decided:\n                    raise self._suspend_exception\n",
+  "                with self._decision_lock:\n                    if self._suspend_exception and not self.counters.should_complete():\n                        raise self._suspend_exception\n", expect="silent")
+M("c09-outcome-counted-outside-the-lock", "C09", "R5.outcome-published-and-counted-in-one-critical-section", "concurrency/executor.py",
+  "            with self._decision_lock:\n                exe_state.complete(result)\n                self.counters.complete_task()\n",
+  "            with self._decision_lock:\n                exe_state.complete(result)\n            self.counters.complete_task()\n", desc="fix 6b4dbfe half reverted")
+M("c09-decision-outside-the-lock", "C09", "R5.outcome-published-and-counted-in-one-critical-section", "concurrency/executor.py",
+  "        with self._decision_lock:\n            if self.counters.should_complete():\n                self._completion_event.set()\n            else:\n                suspend_result = self.should_execution_suspend()\n                if suspend_result.should_suspend:\n                    self._suspend_exception = suspend_result.exception\n                    self._completion_event.set()\n",
+  "        if self.counters.should_complete():\n            self._completion_event.set()\n        else:\n            suspend_result = self.should_execution_suspend()\n            if suspend_result.should_suspend:\n                self._suspend_exception = suspend_result.exception\n                self._completion_event.set()\n")
+M("c12-invocation-errors-skip-the-strategy", "C12", "R1.every-step-failure-reaches-the-strategy", "operation/step.py",
+  "            if isinstance(e, ExecutionError):", "            if isinstance(e, (ExecutionError, StepInterruptedError)):", desc="r7_C12 with another family")
+M("c20-replay-children-written-only-with-result", "C20", "R3.emission-guard-looks-at-the-emitted-value-only", "lambda_service.py",
+  "            if self.context_details.replay_children:\n", "            if self.context_details.result and self.context_details.replay_children:\n", desc="r7_C20")
+M("c20-benign-guard-on-container-and-field", "C20", "", "lambda_service.py",
+  "            if self.context_details.replay_children:\n", "            if self.context_details is not None and self.context_details.replay_children:\n", expect="silent")
+M("c19-lock-error-formats-unprotected", "C19", "R4.broken-lock-error-built-without-unprotected-user-code", "exceptions.py",
+  "            try:\n                text = str(source_exception)\n            except Exception:  # noqa: BLE001\n                # the holder's exception is arbitrary user code; whoever waits for the lock\n                # must get this error, not a failure of that exception's __str__\n                text = \"<exception str() failed>\"\n",
+  "            text = str(source_exception)\n", desc="fix b7a8f97 reverted")
+M("c07-replayed-wait-parks-full-duration-v2", "C07", "R1.replayed-wait-parks-until-its-recorded-end", "operation/wait.py",
+  "            resume_at = min(scheduled_end, now + datetime.timedelta(seconds=self.seconds))\n", "            resume_at = now + datetime.timedelta(seconds=self.seconds)\n", desc="a73cf0b: the recorded end dropped again")
